@@ -4,7 +4,9 @@ import (
 	"context"
 	"errors"
 	"fmt"
+	"hash/fnv"
 	"os"
+	"sort"
 	"strings"
 	"sync"
 	"testing"
@@ -134,12 +136,17 @@ func c30Explore(t *testing.T, c *vcore.Ctx) {
 		}
 	}
 	c.Bound("requests_with_fault_enumeration", len(faulted))
-	var idx int64
+	// Sharding is by a hash of the case, not by position: the order in which concurrent parts of one
+	// execution reach the interceptor differs between worker processes, the set of (label, occurrence) does not.
+	mine := func(cc *c30Case) bool {
+		h := fnv.New64a()
+		h.Write([]byte(vcore.JSON(cc)))
+		return c.Mine(int64(h.Sum64() >> 1))
+	}
 	for i := range cases {
 		cc := cases[i]
-		idx++
-		mine := c.Mine(idx)
-		if !mine && !faulted[i] {
+		own := mine(&cc)
+		if !own && !faulted[i] {
 			continue
 		}
 		if c.Expired() {
@@ -149,7 +156,7 @@ func c30Explore(t *testing.T, c *vcore.Ctx) {
 		// the fault-free run of a request with fault enumeration is needed by every shard (its steps are the
 		// fault alphabet); it is evaluated by the shard that owns it
 		var steps []string
-		if mine {
+		if own {
 			steps = c30One(t, c, b, snap, pre, &cc)
 		} else {
 			steps = c30Steps(t, b, snap, &cc)
@@ -157,18 +164,24 @@ func c30Explore(t *testing.T, c *vcore.Ctx) {
 		if !faulted[i] {
 			continue
 		}
-		for _, f := range stepList(steps) {
+		faults := stepList(steps)
+		sort.Slice(faults, func(a, b int) bool {
+			if faults[a].Label != faults[b].Label {
+				return faults[a].Label < faults[b].Label
+			}
+			return faults[a].Occ < faults[b].Occ
+		})
+		for _, f := range faults {
 			f := f
-			idx++
-			if !c.Mine(idx) {
+			fc := cc
+			fc.Fault = &f
+			if !mine(&fc) {
 				continue
 			}
 			if c.Expired() {
 				c.CapHit("budget reached during fault enumeration")
 				return
 			}
-			fc := cc
-			fc.Fault = &f
 			c30One(t, c, b, snap, pre, &fc)
 		}
 	}
@@ -261,6 +274,11 @@ func c30One(t *testing.T, c *vcore.Ctx, b *world.Backend, snap *world.Snap, pre 
 	cls := "no-fault"
 	if cc.Fault != nil {
 		cls = faultLayer(&wCase{Fault: cc.Fault})
+		// all steps of taking or releasing a distributed lock form one class: which of them an execution
+		// performs (and how often) depends on contention between the run and the background remap
+		if l := cc.Fault.Label; strings.Contains(l, "__lock__") || strings.HasPrefix(l, "etcd.grant(") || strings.HasPrefix(l, "etcd.revoke(") || strings.HasPrefix(l, "etcd.keepalive(") || strings.HasPrefix(l, "etcd.ttl(") {
+			cls = "etcd.lock(*)"
+		}
 	}
 	shortMsgs := func() []c30Msg {
 		out := make([]c30Msg, 0, len(r.msgs))
